@@ -68,7 +68,20 @@ def main():
             meta["suite_passes_with_change"] = ok
             meta["suite_passed_tests"] = passed
             print("suite with change: ok=%s passed=%d" % (ok, passed))
-            shutil.copy(os.path.join(src, "demo.rs"), os.path.join(wt, "tests", "seed_demo.rs"))
+            pydemo = os.path.exists(os.path.join(src, "demo.py"))
+            if pydemo:
+                def demo(wt, target):
+                    env = dict(ENV, CARGO_TARGET_DIR=target, PYO3_PYTHON="/opt/veriftools/pyvenv/bin/python")
+                    rc, out = sh("cargo build --offline --features python --lib 2>&1", cwd=wt, env=env)
+                    if rc != 0:
+                        return False, out[-1200:]
+                    mod = os.path.join(target, "pymod")
+                    os.makedirs(mod, exist_ok=True)
+                    shutil.copy(os.path.join(target, "debug", "libivp.so"), os.path.join(mod, "ivp.so"))
+                    rc, out = sh(["/opt/veriftools/pyvenv/bin/python", os.path.join(src, "demo.py"), mod], cwd=wt)
+                    return rc == 0, out[-1200:]
+            else:
+                shutil.copy(os.path.join(src, "demo.rs"), os.path.join(wt, "tests", "seed_demo.rs"))
             dok, dtail = demo(wt, target)
             meta["demo_fails_with_change"] = not dok
             print("demo with change: %s" % ("passes (BAD)" if dok else "fails (good)"))
@@ -78,12 +91,13 @@ def main():
             print("demo without change: %s" % ("passes (good)" if dok2 else "fails (BAD)"))
             if not dok2:
                 print(dtail2)
-            os.remove(os.path.join(wt, "tests", "seed_demo.rs"))
+            if not pydemo:
+                os.remove(os.path.join(wt, "tests", "seed_demo.rs"))
             rc, out = sh(["git", "apply", "--whitespace=nowarn", patch], cwd=wt)
             if rc != 0:
                 sh(["git", "apply", "--3way", "--whitespace=nowarn", patch], cwd=wt)
             meta["ran"] = ["cargo test --workspace --no-fail-fast --offline (with change)",
-                           "cargo test --offline --test seed_demo (with change, without change)"]
+                           ("python demo.py against the extension built with --features python" if pydemo else "cargo test --offline --test seed_demo") + " (with change, without change)"]
             confirmed = ok and (not dok) and dok2
         else:
             confirmed = True
@@ -119,7 +133,7 @@ def finish(meta, name, src, keep):
     dst = os.path.join(VERIF, "seeded", name)
     if keep:
         os.makedirs(dst, exist_ok=True)
-        for f in ("patch.diff", "demo.rs", "notes.md"):
+        for f in ("patch.diff", "demo.rs", "demo.py", "notes.md"):
             if os.path.exists(os.path.join(src, f)) and os.path.abspath(src) != os.path.abspath(dst):
                 shutil.copy(os.path.join(src, f), os.path.join(dst, f))
         old = {}
